@@ -18,7 +18,7 @@
 (* solve (reads the precision to derive its tolerances).                    *)
 (*                                                                         *)
 (* Design == "thread"  : the calls use the per-thread precision (the tree   *)
-(*                       after fix 011fa54)                                 *)
+(*                       after fix 4a0ed03)                                 *)
 (* Design == "process" : the calls read and write the process-wide default  *)
 (*                       (what BP::default_precision() does with Boost >=   *)
 (*                       1.76; the tree before the fix).  TLC finds the     *)
